@@ -121,6 +121,17 @@ pub struct Note<'a>(Cow<'a, str>);
 
 fn owned_roundtrip<T: serde::de::DeserializeOwned>(doc: String) -> Option<T> { serde_json::from_reader(doc.as_bytes()).ok() }
 
+// user functions whose names an expansion might also want to use for its own helpers
+fn default_value() -> i32 { 7 }
+fn sanitize(v: i32) -> i32 { v.clamp(0, 50) }
+fn validate(v: &i32) -> bool { *v != 13 }
+fn inner() -> i32 { 3 }
+fn value() -> i32 { 40 }
+
+#[nutype(sanitize(with = sanitize), validate(predicate = validate, greater_or_equal = inner(), less_or_equal = value()), default = default_value(),
+         derive(Debug, Clone, Copy, PartialEq, Default, TryFrom, AsRef))]
+pub struct Helped(i32);
+
 // ---------------------------------------------------------------- generic check pieces
 
 macro_rules! pairwise {
@@ -318,6 +329,15 @@ fn main() {
         report("C04", "Note", "deserialize_owned_rejects", e.is_none(), String::new());
         let js = n.as_ref().and_then(|t| serde_json::to_string(t).ok());
         report("C10", "Note", "serialize_transparent", js.as_deref() == Some("\"hello\""), String::new());
+    }
+    // ------------------------------------------------------------ user functions named like plausible helpers
+    {
+        report("C03", "Helped", "default_calls_user_fn", Helped::default().into_inner() == 7 && Helped::try_new(default_value()).map(|t| t.into_inner()).ok() == Some(7), String::new());
+        for (k, raw) in [-5, 2, 3, 13, 40, 41, 99].iter().enumerate() {
+            let s = sanitize(*raw);
+            let want = if validate(&s) && s >= inner() && s <= value() { Some(s) } else { None };
+            report("C01", "Helped", "try_new", Helped::try_new(*raw).ok().map(|t| t.into_inner()) == want, format!("input {}", k));
+        }
     }
     // ------------------------------------------------------------ Default along a history / across instantiations
     {
